@@ -4,6 +4,7 @@ import (
 	"go/ast"
 	"go/token"
 	"go/types"
+	"strings"
 )
 
 func init() { register("C09", rulesC09, nil) }
@@ -254,6 +255,9 @@ func rulesC09(c *Ctx) {
 		}
 		c.Pin("hand-off sends", n, 7)
 	})
+
+	c.Import("R-C09-6", "the client's event reader accepts events of any size (a line-length limit turns every large message into a dead stream and an endless resume loop)", "C19", "R-C19-6", func(k string) bool { return strings.HasPrefix(k, "scanEvents") })
+	c.Import("R-C09-7", "a failed POST or a transient status is a per-message rejection, not a broken connection: the session survives to resume", "C13", "R-C13-5", nil)
 
 	c.Rule("R-C09-5", "the retry budget: the counter is reset only on progress, incremented otherwise, checked before every reconnect; reconnect attempts are bounded and abortable", func() {
 		g := hs.Graph()
